@@ -137,8 +137,9 @@ func (i *Iterator) SeekLE(ctx context.Context, ts telem.TimeStamp) bool {
 	ok := i.internal.SeekLE(ctx, ts)
 
 	if i.internal.TimeRange().OverlapsWith(ts.SpanRange(0)) {
-		// If the provided ts is in the seeked domain, set the view to be ts.
-		i.seekReset(ts)
+		// If the provided ts is in the seeked domain, set the view to be ts, kept
+		// inside the bounds: the domain may reach beyond them.
+		i.seekReset(ts.SpanRange(0).BoundBy(i.bounds).Start)
 	} else {
 		// Otherwise, set the view to the end of the seeked domain or bounds, whichever
 		// one is earlier.
@@ -156,8 +157,9 @@ func (i *Iterator) SeekGE(ctx context.Context, ts telem.TimeStamp) bool {
 	ok := i.internal.SeekGE(ctx, ts)
 
 	if i.internal.TimeRange().OverlapsWith(ts.SpanRange(0)) {
-		// If the provided ts is in the seeked domain, set the view to be ts.
-		i.seekReset(ts)
+		// If the provided ts is in the seeked domain, set the view to be ts, kept
+		// inside the bounds: the domain may reach beyond them.
+		i.seekReset(ts.SpanRange(0).BoundBy(i.bounds).Start)
 	} else {
 		// Otherwise, set the view to the start of the seeked domain or bounds, whichever
 		// one is later.
